@@ -306,6 +306,26 @@ def run(M, c):
     for n, f in OPS[:4]:
         M.check("dt.order_instants", f(p1, p2) == f(u1, u2), "C11/DateTime:order-vs-instants" + (":same-tzinfo-fold" if wall_vs_inst else ""),
                 "ordering of two aware DateTimes is not the ordering of their instants", op=n, got=f(p1, p2), **ctx)
+    # native operands whose tzinfo is unusual but legitimate: a datetime.timezone NAMED "UTC" with a non-zero offset (what
+    # strptime("... UTC+0300", "... %Z%z") returns), a sub-second offset, a plain ZoneInfo value on a wall time that does
+    # not exist (or exists twice, either fold), a dateutil tzstr: pendulum - native and native - pendulum are the native
+    # twin's answers (instant based: the two tzinfo objects differ)
+    wv = us_to_fields(c["ub"] // US * US + c["ua"] % US)
+    zi2 = zoneinfo.ZoneInfo(c["zb"])
+    exotic = [("timezone-named-UTC", dt.datetime(*wv, tzinfo=dt.timezone(dt.timedelta(hours=(3, -7, 5)[c["ua"] % 3], minutes=(0, 30)[c["ua"] // 3 % 2]), "UTC"))),
+              ("timezone-subsecond", dt.datetime(*wv, tzinfo=dt.timezone(dt.timedelta(seconds=3600 * (c["ua"] % 5 - 2), microseconds=(500000, 1, 999999)[c["ub"] % 3])))),
+              ("zoneinfo-raw-wall", dt.datetime(*wv, tzinfo=zi2, fold=c["ua"] % 2))]
+    if _TARGETS[-1][0] == "dateutil":
+        exotic.append(("dateutil-tzstr", dt.datetime(*wv, tzinfo=_dtz.tzstr(("UTC+3", "EST5EDT", "UTC-4:30")[c["ua"] % 3]))))
+    for tag, nat in exotic:
+        try:
+            exp_ = (td_us(a1 - nat), td_us(nat - a1))
+        except OverflowError:
+            continue
+        got_ = _call(lambda v: (td_us(p1 - v), td_us(v - p1)), nat)
+        okx = got_ == ("ok", exp_) if abs(exp_[0]) < 2**33 * US else (got_[0] == "ok" and abs(got_[1][0] - exp_[0]) <= 64 and abs(got_[1][1] - exp_[1]) <= 64)
+        M.check("dt.sub", okx, f"C11/DateTime:subtraction:native-{tag}", "pendulum - native / native - pendulum differ from the native twin's subtraction",
+                got=got_, native=exp_, operand=nat.isoformat(), operand_tz=repr(nat.tzinfo), **ctx)
     if not same_obj or p1.utcoffset() == p2.utcoffset():
         s, sn = p1 - p2, a1 - a2
         s2, s3 = p1 - a2, a1 - p2
